@@ -217,7 +217,19 @@ func MkdirAll(fs FS, path string, perm FileMode) error {
 			}
 		}
 	}
-	return Mkdir(fs, path, perm)
+	err := Mkdir(fs, path, perm)
+	if err != nil && errors.Is(err, ErrExist) {
+		// like os.MkdirAll: an existing directory is success, an existing non-directory is ENOTDIR
+		info, statErr := Stat(fs, path)
+		if statErr != nil {
+			return err
+		}
+		if !info.IsDir() {
+			return &PathError{Op: "mkdir", Path: path, Err: ErrNotDir}
+		}
+		return nil
+	}
+	return err
 }
 
 // Remove removes a file with fs.Remove(). Fails with a not implemented error if it's not a RemoveFS.
